@@ -365,8 +365,10 @@ def _guarded(prog, u: Unit, du: DefUse, c: ast.Call, nid: int, tsrc: Set[str]):
             if isinstance(it, ast.Call) and dotted(it.func) == "range":
                 lnid = du.node_of(it)
                 bound = it.args[-1] if len(it.args) <= 2 else it.args[1]
-                ds = depends_on(du, bound, lnid, STEP_SOURCES, call_filter=cf)
-                dt_ = depends_on(du, bound, lnid, tsrc, call_filter=cf)
+                # range(start, stop) runs stop - start times: either end may carry the step
+                ends = list(it.args[:2])
+                ds = any(depends_on(du, e_, lnid, STEP_SOURCES, call_filter=cf) for e_ in ends)
+                dt_ = any(depends_on(du, e_, lnid, tsrc, call_filter=cf) for e_ in ends)
                 if ds and dt_:
                     return True, f"for ... in range({norm(bound)}): bound depends on step and target"
                 return False, (f"the loop bound `{norm(bound)}` does not depend on "
